@@ -339,10 +339,11 @@ func runHubScenario(seed int64, maxEv int, port int) *hubScenario {
 
 	var script []scripted
 	sinceDelayed := -1 // events since a delayed notification / dial task was created (-1: none pending)
+	var delayedAt time.Time // when that was: the delay is 500 ms of real time, events take 150 ms and more on a loaded machine
 	shutdown := false
 	for n := 0; n < maxEv; n++ {
 		k := keys[rnd.Intn(len(keys))]
-		if sinceDelayed >= 2 {
+		if sinceDelayed >= 2 || (sinceDelayed >= 0 && time.Since(delayedAt) > 220*time.Millisecond) {
 			time.Sleep(2200 * time.Millisecond)
 			settle(300 * time.Millisecond)
 			record("tick", nil)
@@ -381,7 +382,7 @@ func runHubScenario(seed int64, maxEv int, port int) *hubScenario {
 		}
 		// a delayed notification (500 ms) is under way and the next event takes 400 ms to settle: let the delay pass
 		// first, so that the event in which the notification shows does not depend on the clock
-		if sinceDelayed >= 1 && slowNext(choice) {
+		if sinceDelayed >= 0 && (slowNext(choice) || time.Since(delayedAt) > 220*time.Millisecond) {
 			time.Sleep(2200 * time.Millisecond)
 			settle(300 * time.Millisecond)
 			record("tick", nil)
@@ -557,6 +558,7 @@ func runHubScenario(seed int64, maxEv int, port int) *hubScenario {
 		}
 		if delayedCreated && sinceDelayed < 0 {
 			sinceDelayed = 0
+			delayedAt = time.Now()
 		} else if sinceDelayed >= 0 {
 			sinceDelayed++
 		}
